@@ -2,11 +2,11 @@
    WF  : ids are pairwise distinct over all objects, below the uuid4 counter, members listed once
    Inv : every id an object carries (uuid or id-attribute text) is bound to that object in uuid_dict
    T1 resolve_back, T2 fragments_distinct (in any state with Inv), load/reload establish Inv,
-   T3 histories, T4 refutations (old JSON loader; save without registration on HEAD). *)
+   T3 histories, T4 refutations (old JSON loader; _assign_uuid without registration; stale id attribute). *)
 From Coq Require Import ZArith List Bool Lia.
 From PyecoreV Require Import Model.IdFrag.
 Import ListNotations.
-Open Scope Z_scope.
+Local Open Scope Z_scope.
 
 Lemma upd_same : forall A (f : obj -> A) o v, upd f o v o = v.
 Proof. intros. unfold upd. rewrite Nat.eqb_refl. reflexivity. Qed.
@@ -462,7 +462,8 @@ Proof.
     + destruct t as [t|]; [|intros z []]. intros z [<-|[]]. apply K.
     + destruct t as [t|]; [|intros z x []]. intros z x [<-|[]]. apply K.
     + intros z x H. left. exact H.
-  - unfold fragment_step. destruct (use_uuid s); simpl; [apply WF_assign|]; exact W.
+  - destruct (mem o (members s)); [|exact W].
+    unfold fragment_step. destruct (use_uuid s); simpl; [apply WF_assign|]; exact W.
   - apply (WF_with_uuid s b W).
 Qed.
 
@@ -480,7 +481,8 @@ Proof.
     + destruct t as [t|]; [|intros z x []]. intros z x [<-|[]]. apply K.
     + destruct t as [t|]; [|intros z []]. intros z [<-|[]]. exact Q.
     + reflexivity.
-  - unfold fragment_step. destruct (use_uuid s) eqn:U; simpl; [|exact HI].
+  - destruct (mem o (members s)); [|exact HI].
+    unfold fragment_step. destruct (use_uuid s) eqn:U; simpl; [|exact HI].
     destruct Q as [R|[F|N]]; [apply Inv_assign_reg; assumption | congruence |].
     destruct (internal s o) as [i|] eqn:E; [rewrite (assign_noop _ _ _ _ E); exact HI | contradiction].
   - exact HI.
@@ -526,17 +528,17 @@ Theorem old_json_loader_refuted : exists h o,
   resolves_back (run head (init 0) h) o = true.
 Proof. exists h_reload_save, 0%nat. vm_compute. repeat split. left. reflexivity. Qed.
 
-(* HEAD: _assign_uuid does not register: the uuid drawn by a save (built resource, or object added after a
-   load) is not resolved by the resource before the document is loaded again; a registering _assign_uuid is *)
-Theorem head_unregistered_draw_refuted : exists h o,
-  In o (members (run head (init 0) h)) /\
-  resolves_back (run head (init 0) h) o = false /\
-  resolves_back (run registering (init 0) h) o = true.
+(* before fix 330f52e _assign_uuid did not register: the uuid drawn by a save (built resource, or object added
+   after a load) was not resolved by the resource before the document was loaded again; on HEAD it is *)
+Theorem unregistered_draw_refuted : exists h o,
+  In o (members (run before_330f52e (init 0) h)) /\
+  resolves_back (run before_330f52e (init 0) h) o = false /\
+  resolves_back (run head (init 0) h) o = true.
 Proof. exists (h_reload_save ++ [Add 2%nat; Save]), 2%nat. vm_compute. repeat split. right. right. left. reflexivity. Qed.
 
 (* an id attribute edited after the load is not re-registered (every variant) *)
 Theorem stale_idattr_refuted : exists h o,
-  In o (members (run registering (init 10) h)) /\ resolves_back (run registering (init 10) h) o = false.
+  In o (members (run head (init 10) h)) /\ resolves_back (run head (init 10) h) o = false.
 Proof. exists [Load [(0%nat, None, Some 5)]; SetIdAttr 0%nat (Some 6)], 0%nat. vm_compute. split; [left|]; reflexivity. Qed.
 
 (* ---- the premises are satisfiable on a non-trivial history (HEAD): a loaded uuid document with id attributes,
@@ -571,4 +573,43 @@ Example ex_members_resolve :
   let s := run head (init 100) h_ex in
   members s = [0%nat; 2%nat; 1%nat] /\ forallb (resolves_back s) (members s) = true /\
   map (fragment_of s) (members s) = [FPos 0%nat; FId 5; FPos 1%nat].
+Proof. vm_compute. repeat split. Qed.
+
+(* ---- HEAD (fix 330f52e: the drawn ids are registered): no premise on Save / Ref any more.  What remains:
+   the freshness premises op_ok, and an id attribute may only be edited to a text already bound to the object *)
+Definition bound_edit (s : state) (a : op) : Prop :=
+  match a with SetIdAttr o (Some t) => lookup t (dict s) = Some o | _ => True end.
+
+Lemma quiet_head : forall s a, bound_edit s a -> quiet head s a.
+Proof. intros s a H. destruct a as [|d| |o|o|o t|o|b]; simpl; auto. Qed.
+
+Fixpoint head_ok (s : state) (h : list op) : Prop :=
+  match h with
+  | [] => True
+  | a :: r => op_ok s a /\ bound_edit s a /\ head_ok (step head s a) r
+  end.
+
+Lemma head_ok_hist_ok : forall h s, head_ok s h -> hist_ok head s h.
+Proof.
+  induction h as [|a r IH]; intros s H; simpl; [exact I|].
+  destruct H as [K [B H]]. repeat split; [exact K | apply quiet_head; exact B | apply IH; exact H].
+Qed.
+
+Theorem head_history_resolves : forall n h o, head_ok (init n) h ->
+  In o (members (run head (init n) h)) ->
+  resolve (run head (init n) h) (fragment_of (run head (init n) h) o) = Some o.
+Proof. intros n h o H. apply history_resolves. apply head_ok_hist_ok. exact H. Qed.
+
+Theorem head_history_distinct : forall n h o1 o2, head_ok (init n) h ->
+  In o1 (members (run head (init n) h)) -> In o2 (members (run head (init n) h)) ->
+  fragment_of (run head (init n) h) o1 = fragment_of (run head (init n) h) o2 -> o1 = o2.
+Proof. intros n h o1 o2 H. apply history_distinct. apply head_ok_hist_ok. exact H. Qed.
+
+(* a history that draws ids all along: built resource, uuid mode, saves, additions, references *)
+Example head_ok_draws :
+  head_ok (init 0) [Add 0%nat; Add 1%nat; SetUuid true; Save; Add 2%nat; Ref 2%nat; Remove 0%nat; Save; Add 0%nat;
+                    Add 3%nat; Reload; Add 4%nat; Save] /\
+  forallb (resolves_back (run head (init 0) [Add 0%nat; Add 1%nat; SetUuid true; Save; Add 2%nat; Ref 2%nat;
+                                             Remove 0%nat; Save; Add 0%nat; Add 3%nat; Reload; Add 4%nat; Save]))
+          [1%nat; 2%nat; 0%nat; 3%nat; 4%nat] = true.
 Proof. vm_compute. repeat split. Qed.
